@@ -44,9 +44,25 @@ IPow(b, e) == IF e = 0 THEN 1 ELSE b * IPow(b, e - 1)
 RLess(x, y) == x.n * y.d < y.n * x.d
 REq(x, y)   == x.n * y.d = y.n * x.d
 
+\* TLC has 32-bit integers and aborts on overflow.  Operands whose magnitude exceeds
+\* BigBound are outside the exact domain: an operation on them is undefined (POISON),
+\* so a program that leaves the domain is discarded (reference) or reported as newly
+\* undefined (variant) instead of crashing the model checker.  Products of two
+\* in-domain operands (< 9*10^8) and sums of two such products stay below 2^31.
+BigBound == 30000
+Big(x) == IF x.t = "i" THEN FAbs(x.v) > BigBound
+          ELSE IF x.t = "r" THEN FAbs(x.n) > BigBound \/ x.d > BigBound
+          ELSE FALSE
+RECURSIVE IPowS(_, _)      \* <<ok, b^e>> with the same guard at every step
+IPowS(b, e) == IF e = 0 THEN <<TRUE, 1>>
+               ELSE LET r == IPowS(b, e - 1) IN
+                    IF ~r[1] \/ FAbs(r[2]) > BigBound \/ FAbs(b) > BigBound THEN <<FALSE, 0>>
+                    ELSE <<TRUE, b * r[2]>>
+
 \* scalar binary operation on two scalar values
 ScalBin(op, x, y) ==
   IF IsP(x) \/ IsP(y) THEN POISON
+  ELSE IF Big(x) \/ Big(y) THEN POISON
   ELSE IF op \in {"and", "or", "eqv", "neqv"} THEN
      IF x.t # "l" \/ y.t # "l" THEN POISON
      ELSE (CASE op = "and"  -> VL(x.b /\ y.b)
@@ -59,7 +75,9 @@ ScalBin(op, x, y) ==
         [] op = "-"  -> VI(x.v - y.v)
         [] op = "*"  -> VI(x.v * y.v)
         [] op = "/"  -> IF y.v = 0 THEN POISON ELSE VI(TDiv(x.v, y.v))
-        [] op = "**" -> IF y.v >= 0 THEN VI(IPow(x.v, y.v))
+        [] op = "**" -> IF y.v >= 0 THEN (IF y.v > 40 /\ FAbs(x.v) > 1 THEN POISON
+                                          ELSE LET r == IPowS(x.v, y.v) IN
+                                               IF r[1] THEN VI(r[2]) ELSE POISON)
                         ELSE IF x.v = 0 THEN POISON
                         ELSE IF x.v = 1 THEN VI(1)
                         ELSE IF x.v = -1 THEN VI(IF y.v % 2 = 0 THEN 1 ELSE -1)
@@ -77,9 +95,13 @@ ScalBin(op, x, y) ==
         [] op = "*"  -> VR(a.n * b.n, a.d * b.d)
         [] op = "/"  -> IF b.n = 0 THEN POISON ELSE VR(a.n * b.d, a.d * b.n)
         [] op = "**" -> IF y.t # "i" THEN POISON          \* real exponent: outside the domain
-                        ELSE IF y.v >= 0 THEN VR(IPow(a.n, y.v), IPow(a.d, y.v))
-                        ELSE IF a.n = 0 THEN POISON
-                        ELSE VR(IPow(a.d, -y.v), IPow(a.n, -y.v))
+                        ELSE IF FAbs(y.v) > 40 THEN POISON
+                        ELSE LET e == FAbs(y.v)
+                                 pn == IPowS(a.n, e)  pd == IPowS(a.d, e) IN
+                             IF ~pn[1] \/ ~pd[1] THEN POISON
+                             ELSE IF y.v >= 0 THEN VR(pn[2], pd[2])
+                             ELSE IF a.n = 0 THEN POISON
+                             ELSE VR(pd[2], pn[2])
         [] op = "==" -> VL(REq(a, b))
         [] op = "/=" -> VL(~REq(a, b))
         [] op = "<"  -> VL(RLess(a, b))
@@ -111,6 +133,7 @@ ScalAbs(x) == IF x.t = "i" THEN VI(FAbs(x.v)) ELSE VR(FAbs(x.n), x.d)
 \* scalar intrinsic functions (elemental ones are mapped over arrays by Eval)
 ScalIntr(name, xs) ==
   IF \E i \in DOMAIN xs : IsP(xs[i]) THEN POISON
+  ELSE IF \E i \in DOMAIN xs : Big(xs[i]) THEN POISON
   ELSE CASE name = "ABS" ->
             (IF ~IsNum(xs[1]) THEN POISON
              ELSE IF xs[1].t = "i" THEN VI(FAbs(xs[1].v)) ELSE VR(FAbs(xs[1].n), xs[1].d))
